@@ -1009,37 +1009,58 @@ func keysOf(m map[string]bool) []string {
 func c10Reader(p *Prog, rp *Report) {
 	r := rp.Rule("C10-READER", "ParseControl reads the source paragraph and the binaries from the same buffered reader", 1)
 	fn := p.Func("control", "ParseControl")
-	if fn == nil {
+	ct := p.Named("control", "Control")
+	if fn == nil || ct == nil {
 		r.bad("control.ParseControl", "", "function not found", nil)
 		return
 	}
-	um := p.Func("control", "Unmarshal")
-	var readers []ssa.Value
-	var targets []string
-	for _, c := range callsNamed(fn, um.String()) {
-		rd := c.Call.Args[1]
-		if mi, ok := rd.(*ssa.MakeInterface); ok {
-			rd = mi.X
-		} else if ct, ok := rd.(*ssa.ChangeInterface); ok {
-			rd = ct.X
-		}
-		readers = append(readers, rd)
-		tgt := c.Call.Args[0]
-		if mi, ok := tgt.(*ssa.MakeInterface); ok {
-			tgt = mi.X
-		}
-		targets = append(targets, describeArg(tgt))
-	}
 	pos := p.Pos(fn.Pos())
-	if len(readers) != 2 {
-		r.undecided("control.ParseControl", pos, fmt.Sprintf("expected two Unmarshal calls, found %d", len(readers)))
+	doc := "Source: src\nMaintainer: M <m@example.org>\n\nPackage: bin1\nArchitecture: any\n\nPackage: bin2\nArchitecture: all\nDescription: second\n more\n"
+	run := newC09Run(p)
+	run.script = splitLines(doc)
+	run.nread = 0
+	rid := run.st.alloc(types.Typ[types.Int], OpaqueV{"bufio"})
+	ret, why := run.call(fn, Ptr{Obj: rid}, "/work/pkg/debian/control")
+	if strings.HasPrefix(why, "PANIC") {
+		r.bad("control.ParseControl", pos, "ParseControl panics on a three-paragraph control file: "+why, nil)
 		return
 	}
-	same := readers[0] == readers[1]
-	_, isParam := readers[0].(*ssa.Parameter)
-	srcFirst := strings.Contains(targets[0], "Source") && strings.Contains(targets[1], "Binaries")
-	r.check(same && isParam && srcFirst, "control.ParseControl", pos, "both Unmarshal calls get the function's reader parameter; Source first, then Binaries",
-		fmt.Sprintf("Unmarshal targets %v; same reader value: %v; reader is the parameter: %v", targets, same, isParam))
+	if why != "" {
+		r.undecided("control.ParseControl", pos, why)
+		return
+	}
+	tv, ok := ret.(*TupleV)
+	if !ok || len(tv.E) != 2 {
+		r.undecided("control.ParseControl", pos, "unexpected result shape")
+		return
+	}
+	if _, errNil := tv.E[1].(nilV); !errNil {
+		r.bad("control.ParseControl", pos, "a control file with a source paragraph and two binary paragraphs is rejected", nil)
+		return
+	}
+	got := deepRender(run.st, tv.E[0], 0)
+	var problems []string
+	for _, want := range []string{`"src"`, `"bin1"`, `"bin2"`, `"/work/pkg/debian/control"`, `"M <m@example.org>"`} {
+		if !strings.Contains(got, want) {
+			problems = append(problems, "the parsed Control lacks "+want)
+		}
+	}
+	if pp, ok := tv.E[0].(Ptr); ok {
+		if sv, ok := run.st.Heap[pp.Obj].V.(*StructV); ok {
+			elems, _, _ := run.m.sliceElems(run.st, sv.F[fieldIndex(structOf(ct), "Binaries")])
+			if len(elems) != 2 {
+				problems = append(problems, fmt.Sprintf("%d binary paragraphs decoded, want 2 (source first, then every binary paragraph from the same reader)", len(elems)))
+			}
+			src := deepRender(run.st, sv.F[fieldIndex(structOf(ct), "Source")], 0)
+			if !strings.Contains(src, `"src"`) || strings.Contains(src, `"bin1"`) {
+				problems = append(problems, "the first paragraph is not the one decoded into Source")
+			}
+		}
+	}
+	if run.nread != len(run.script) {
+		problems = append(problems, fmt.Sprintf("only %d of %d lines were read", run.nread, len(run.script)))
+	}
+	fillProblems(r, "control.ParseControl", pos, problems, "a control file with one source and two binary paragraphs: Source from the first paragraph, both binaries after it, all lines read from the one reader, Filename = the path")
 }
 
 // descentGuardDominates: the `kind == Struct` test guarding the descent is
